@@ -37,6 +37,10 @@ inductive Line where
   | pragmaWarning
   /-- a line that is not a directive -/
   | text (toks : List PTok)
+  /-- a directive line that `preprocess_command` rejects whatever the state: `#pragma` with an unknown or missing name
+  (`UnknownPragma`), a directive name that is none (`UnknownCommand`), `#include` whose operand is not one string literal
+  / header name (`InvalidInclude`).  The pending text was flushed when the `#` was met, so an error of that text wins -/
+  | rejected (e : Err)
   deriving DecidableEq, Repr, Inhabited
 
 /-- the include handler: include name ↦ `FileData { real_name, contents }` = (real name, lines of the file) -/
@@ -114,6 +118,10 @@ def stepLine (inc : String → State → Except Err State) (cur : String) :
       match inc name st with
       | .error e => .error e
       | .ok st => .ok (st, [])
+  | (st, active), .rejected e =>
+    match flush st active with
+    | .error e' => .error e'
+    | .ok _ => .error e
 
 def foldLines (inc : String → State → Except Err State) (cur : String) :
     State × List PTok → List Line → Except Err (State × List PTok)
